@@ -87,6 +87,9 @@ class StoreModel:
             return k != "" and k not in self.files and k not in self.meta_only and not any(a in self.files for a in ancestors(k))
         if kind in ("removedir", "removedir_recursive") and any(x.startswith(k + "/") for x in self.meta_only):
             return False
+        if kind == "removedir_nonempty":
+            # non-recursive removal of a directory that still has content: refused or ignored, never partly done
+            return k in self.dirs and k not in self.pinned and bool(self.children(k))
         if kind == "removedir":
             return k in self.dirs and k not in self.pinned and not self.children(k)
         if kind == "removedir_recursive":
@@ -122,6 +125,8 @@ class StoreModel:
             self.dirs.add(k)
             for a in ancestors(k):
                 self.dirs.add(a)
+        elif kind == "removedir_nonempty":
+            pass    # "it depends on the store whether the directory must be empty": either way its content stays
         elif kind == "removedir":
             self.dirs.discard(k)
         elif kind == "removedir_recursive":
@@ -138,7 +143,7 @@ def gen_history(rnd, model, universe, n, weights=None, avoid=None, tag="v"):
     """Draw n operations, each satisfying the model's precondition in the state it is applied to.
     The model passed in is advanced. avoid(op, model) -> True vetoes an operation (known-mechanism avoidance)."""
     weights = weights or {"store": 6, "store_rmw": 2, "store_metadata": 2, "store_metadata_rmw": 2, "remove": 3, "makedir": 2,
-                          "removedir": 2, "removedir_recursive": 2}
+                          "removedir": 2, "removedir_recursive": 2, "removedir_nonempty": 1}
     kinds = [k for k, w in weights.items() for _ in range(w)]
     hist = []
     counter = 0
@@ -215,6 +220,11 @@ def apply_real(store, op):
         store.remove(k)
     elif kind == "makedir":
         store.makedir(k)
+    elif kind == "removedir_nonempty":
+        try:
+            store.removedir(k)
+        except Exception:
+            pass    # refusing is fine; what matters is what the store looks like afterwards
     elif kind == "removedir":
         store.removedir(k)
     elif kind == "removedir_recursive":
